@@ -367,6 +367,8 @@ const RALPHA: [C; 4] = [(0, 0), (1, 0), (0, 1), (1, 1)];
 #[derive(Clone, Copy, Debug, PartialEq, Eq, Hash)]
 pub enum RAct {
     New(u8, u8),
+    /// the deprecated, never-failing constructor
+    TryNew(u8, u8),
     SetMin(u8),
     SetMax(u8),
 }
@@ -401,6 +403,7 @@ impl Model for RectModel {
             out.push(RAct::SetMax(a));
             for b in 0..4u8 {
                 out.push(RAct::New(a, b));
+                out.push(RAct::TryNew(a, b));
             }
         }
     }
@@ -411,6 +414,12 @@ impl Model for RectModel {
         n.last_panicked = false;
         match a {
             RAct::New(a, b) => n.rect = Rect::new(co(RALPHA[a as usize]), co(RALPHA[b as usize])),
+            #[allow(deprecated)]
+            RAct::TryNew(a, b) => {
+                if let Ok(r) = Rect::try_new(co(RALPHA[a as usize]), co(RALPHA[b as usize])) {
+                    n.rect = r;
+                }
+            }
             RAct::SetMin(c) => {
                 // a documented precondition failure panics; the value is still observable afterwards
                 let mut r = n.rect;
